@@ -182,6 +182,34 @@ def startOp (_s : St) (op : String) : Option PC :=
   | ["put", v] => v.toNat?.map .o0
   | _ => none
 
+def kidx : Kind → Nat
+  | .t0 => 0
+  | .n1 => 1
+  | .n2 => 2
+  | .rcv => 3
+  | .rcvp => 4
+  | .o0 => 5
+  | .o1 => 6
+  | .k0 => 7
+  | .k1 => 8
+  | .ic => 9
+  | .c0 => 10
+  | .c1 => 11
+  | .c2 => 12
+  | .l0 => 13
+  | .l1 => 14
+  | .l2 => 15
+  | .l3 => 16
+  | .l4 => 17
+  | .l5 => 18
+def allKinds : List Kind := [.t0, .n1, .n2, .rcv, .rcvp, .o0, .o1, .k0, .k1, .ic, .c0, .c1, .c2, .l0, .l1, .l2, .l3, .l4, .l5]
+/-- the same state with the counter function re-tabulated (see `compact_eq`) -/
+def compact (s : St) : St := { s with cnt := let t := allKinds.map s.cnt; fun k => tblGet t (kidx k) }
+theorem compact_eq (s : St) : compact s = s := by
+  have : (let t := allKinds.map s.cnt; fun k => tblGet t (kidx k)) = s.cnt := by
+    funext k; cases k <;> rfl
+  simp only [compact, this]
+
 def ops : Ops St PC where
   gstep := gstep
   spawn := spawn
@@ -189,6 +217,7 @@ def ops : Ops St PC where
   startOp := startOp
   openGate := id
   summary := fun _ => "fin"
+  compact := compact
 
 def exec0 (c b : Nat) : Exec St PC :=
   { sh := init c b true true, ths := [{ name := "L", pc := some .l0, internal := true }] }
